@@ -20,7 +20,7 @@ CanH    == NextH <= MaxH
 CanO    == NextO <= MaxO
 
 \* deterministic assignment of fresh handles to a set of objects: ascending object id
-UArgs == IF "stale" \in Acts THEN Users ELSE {"user", "so"}
+UArgs == IF "utypes" \in Acts THEN Users ELSE {"user", "so"}
 TArgs == Labels \cup {"any"}
 Rank(S, o) == Cardinality({p \in S : p < o})
 FreshFor(S) == [o \in S |-> NextH + Rank(S, o)]
